@@ -47,6 +47,15 @@ class Prepared:
             except Exception as e:      # noqa
                 self.decor_errors[pos] = e
 
+    def entry_points(self):
+        """The entry points that apply to this hint: all six, minus the two TypeHint routes for hints that the door API
+        documents as unsupported (``BeartypeDoorNonpepException: ... currently unsupported by "beartype.door.TypeHint"``,
+        a public exception raised when the wrapper is constructed; e.g. PEP 646 unpacked tuples, subscripted PEP 695 aliases)."""
+        e = self.decor_errors.get('typehint')
+        if e is not None and type(e).__name__ == 'BeartypeDoorNonpepException' and 'currently unsupported by' in str(e):
+            return tuple(ep for ep in ENTRY_POINTS if not ep.startswith('typehint_'))
+        return ENTRY_POINTS
+
     def eval(self, entry, x, draw):
         """Returns dict(verdict, exc, msg, culprits, warns, draws, ran)."""
         s = boot.SAMPLER
